@@ -8,10 +8,12 @@ def run(c):
         'environment: which sessions exist (parent / child / addressed id), which argument expression fails, which processor type is named — all solver-chosen',
     ]
     c.assumptions += ['h_c12_loop_survives iterates hash maps in insertion order (env map_order=insertion): set_event marks the 7 fields of the _event map read-only by iterating over it, the order cannot matter for the obligation and would otherwise multiply the paths by 7! per event']
-    c.outside += ['documents the reader rejects', 'invoke start failures (C14 harness)', 'ECMAScript datamodel', 'real thread scheduling']
+    c.outside += ['documents the reader rejects as the document of the session itself (the reader reports them by panicking on the host thread, before a session exists)', 'invoke start failures other than a rejected child document (C14 harness)', 'a reader panic that unwinds through a held lock (mutex poisoning is not modelled: inconclusive)', 'ECMAScript datamodel', 'real thread scheduling']
     c.run_m('h_c12_send_errors', expect_checks=(1202, 1203, 1204, 1205, 1206, 1207, 1208, 1209), expect_cover=(1201,),
             bounds={'target forms': 9, 'types': 4, 'failing argument': 'none/targetexpr/eventexpr/param/namelist/delayexpr/typeexpr', 'parent/child present': 'both'}, diff_samples=4)
     c.run_m('h_c12_loop_survives', expect_checks=(1210,), expect_cover=(1210,), env={'map_order': 'insertion', 'budget_is_hang': True}, bounds={'failing send inside a transition body, then cancel': 'targets #_parent(no parent), #_child(none), unknown session, malformed, unsupported'})
+    c.run_m('h_c12_invoke_bad', expect_checks=(1220, 1221), expect_cover=(1220,), diff_samples=9,
+            bounds={'inline <invoke> content': '8 well-formed documents the reader rejects (transition type, <initial> + initial attribute, binding, nested <scxml>, <assign> expr + text, content outside a block, missing required attributes, unknown target) + 1 conformant'})
     # evaluation never panics (shared with C11) and executable content errors do not stop the interpreter (shared with C08)
     c.run_m('h_c11_texts', expect_checks=(1120,), expect_cover=(1120,), only={1120}, bounds={'texts': 24})
     c.run_m('h_c08_block', expect_checks=(803,), expect_cover=(801,), only={803}, bounds={'kinds': 13})
